@@ -16,6 +16,10 @@ GenP == [k |-> "gen", n |-> <<112, 114, 111, 112>>, v |-> <<[t |-> "u", x |-> 5]
 PR0 == <<>>
 PR1 == <<GP(1, <<97, 98>>)>>
 PR2 == <<GP(2, <<120>>), GenP, GP(7, <<104, 101, 108, 108, 111>>)>>
+\* the same kind of property built through the generic property interface, its string stored without a
+\* terminating NUL (odd and even lengths: the writer has to pad the odd one itself)
+GPRaw(a, s) == [k |-> "gds", a |-> a, s |-> s, raw |-> TRUE]
+PR3 == <<GPRaw(3, <<97, 98, 99>>), GPRaw(4, <<120, 121>>), GPRaw(5, <<122>>)>>
 
 \* ---- repetitions (quanta; whole database units so that sums never create ties) -----
 Reps == {NoRep, Rect(2, 2, <<400, 800>>), Rect(3, 2, <<400, 800>>), Rect(3, 1, <<-400, 0>>), Rect(1, 1, <<40, 40>>),
@@ -100,7 +104,11 @@ Eighths == UNION {{Case(AL8(<<One("polys", Poly(1, 0, Tri8, r, PR0)), SubCell>>)
                   \cup {Case(AL8(<<SubCell, One("paths", Path(rb, TRUE, TRUE, <<El(1, 0, 41, 0, 4, <<21, -13>>)>>,
                                                              Spine8, r, PR0))>>), 1) : rb \in BOOLEAN}
                   : r \in Reps8}
-Cases == Singles \cup Mixed \cup Eighths \cup {Case(AL(1, <<>>), 1)}
+RawProps == {Case(AL(1, <<One("polys", Poly(7, 1, RectQ, NoRep, PR3)), SubCell>>), 1),
+             Case(AL(1, <<One("labels", Label(10, 0, 0, FALSE, 1024, 0, <<1, 3>>, <<104, 105>>, NoRep, PR3)), SubCell>>), 1),
+             Case(AL(1, <<One("refs", Ref(S_CELL, "cell", FALSE, 1024, 0, <<41, 83>>, Rect(3, 2, <<400, 800>>), PR3)), SubCell>>), 1),
+             Case(AL(1, <<SubCell, One("paths", Path(FALSE, TRUE, TRUE, <<El(1, 0, 41, 0, 4, <<21, -13>>)>>, LSpine, NoRep, PR3))>>), 1)}
+Cases == Singles \cup Mixed \cup Eighths \cup RawProps \cup {Case(AL(1, <<>>), 1)}
 
 Init == case \in Cases
 Next == UNCHANGED case
